@@ -168,11 +168,14 @@ Definition lex_exp (t : text) : option (option (bool * list N) * text) :=
   | [] => Some (None, t)
   end.
 
+Definition lex_minus (t : text) : bool * text :=
+  match t with
+  | c :: r => if c =? 45 then (true, r) else (false, t)
+  | [] => (false, t)
+  end.
+
 Definition parse_number (t : text) : option (json * text) :=
-  let (neg, t0) := match t with
-                   | c :: r => if c =? 45 then (true, r) else (false, t)
-                   | [] => (false, t)
-                   end in
+  let (neg, t0) := lex_minus t in
   match lex_int t0 with
   | None => None
   | Some (ip, t1) =>
@@ -403,8 +406,7 @@ Fixpoint print_g (gap ind : text) (v : json) : text :=
 
 Definition print (v : json) : text := print_g [] [] v.
 
-(* well-formed JSON value: lexical parts of numbers are legal, strings are UTF-16 unit lists *)
-Definition units_ok (s : list N) : bool := forallb (fun c => c <? 65536) s.
+(* well-formed JSON value: the lexical parts of its numbers are legal *)
 
 Definition exp_okb (ex : option (bool * list N)) : bool :=
   match ex with
@@ -416,9 +418,9 @@ Fixpoint wf_json (v : json) : bool :=
   match v with
   | JNull | JBool _ => true
   | JNum _ ip fp ex => int_okb ip && forallb is_digit fp && exp_okb ex
-  | JStr s => units_ok s
+  | JStr _ => true
   | JArr l => forallb wf_json l
-  | JObj l => forallb (fun kv => units_ok (fst kv) && wf_json (snd kv)) l
+  | JObj l => forallb (fun kv => wf_json (snd kv)) l
   end.
 
 (* well-formed UTF-16: every surrogate is half of a pair *)
